@@ -104,6 +104,18 @@ func (fr *Frame) callCallback(ins *ssa.Call, c *ssa.CallCommon, fv Val, args []V
 		fr.safetyOb(st, "nilfunc", "call of nil function value", ins.Pos(), not(eq(fv.t, "0")))
 	}
 	ex.vc.note("call through function value %s modelled as arbitrary-result, document-preserving callback (A-CALLBACK)", c.Value.Name())
+	for g := range ex.eng.cs.CallbackGhosts {
+		if ex.listsGhost(g) {
+			if ex.frames {
+				for _, sc := range fr.activeScopes() {
+					if !sc.wholeHeaps[ghostKey(g)] {
+						ex.vc.oblige("frame", fmt.Sprintf("a callback call sets ghost %s, scope %s allows {%s}", g, sc.name, strings.Join(sc.srcs, ", ")), ex.pos(ins.Pos()), st.pc, "false")
+					}
+				}
+			}
+			st.ghosts[g] = TVal{"true", tBool}
+		}
+	}
 	return fr.freshResults(c.Signature(), st)
 }
 
@@ -500,6 +512,9 @@ func (ex *Exec) frameCheckWhole(fr *Frame, st *State, key string, ins *ssa.Call)
 	if !ex.frames {
 		return
 	}
+	if g, ok := ghostOfKey(key); ok && ex.eng.cs.CallbackGhosts[g] && !ex.listsGhost(g) {
+		return // a unit that says nothing about the callback ghost is not checked against it
+	}
 	for _, sc := range fr.activeScopes() {
 		if !sc.wholeHeaps[key] {
 			ex.vc.oblige("frame", fmt.Sprintf("call may modify all of %s, scope %s allows {%s}", key, sc.name, strings.Join(sc.srcs, ", ")), ex.pos(ins.Pos()), st.pc, "false")
@@ -803,4 +818,17 @@ func (fr *Frame) clobberSlice(st *State, v Val, pos token.Pos, why string) {
 		ns := vc.mkSlice(st, v.typ, arr, fmt.Sprintf("(len_%s %s)", sn, cur.t), fmt.Sprintf("(nil_%s %s)", sn, cur.t))
 		ex.store(fr, st, pl, Val{t: vc.define("sl", sn, ns), typ: v.typ, backing: cur.backing}, pos)
 	}
+}
+
+// listsGhost: the contract of the unit under verification names the ghost in its modifies clause.
+func (ex *Exec) listsGhost(g string) bool {
+	if ex.contract == nil {
+		return false
+	}
+	for _, m := range ex.contract.Modifies {
+		if m.Ghost == g {
+			return true
+		}
+	}
+	return false
 }
